@@ -81,6 +81,7 @@ def run(ctx, deps=True):
                         eqmap.setdefault(a, b)
         if eqmap:
             calls = [ev[:3] + (tuple(subst(a, eqmap) for a in ev[3]),) + ev[4:] for ev in calls]
+        calls = calls + _virtual_vsig(eng, p, U, pairs, eqmap)
         for who, (K, th) in pairs.items():
             hit = [ev for ev in calls if len(ev[3]) >= 4 and ev[3][0] == U and ev[3][1] == K and ev[3][2] == th and ev[3][3] == C(True)]
             near = [("verify_signable(%s)" % ", ".join(show(a) for a in ev[3])) for ev in calls]
@@ -171,6 +172,16 @@ def _cause(eng, p, x, T, U, tv, uv, pairs):
     if eqmap:
         facts = facts | {subst(f, eqmap) for f in facts if f[0] in ("has", "nothas", "ne", "eq")}
     st = State(facts=facts)
+    dec = _vs_decomposition(eng)
+    if dec is not None:
+        params, steps = dec
+        for ev in flat(p):
+            if ev[0] == "call" and ev[5][0] == "raise" and (ev[1] == top or ev[1] in x.chain) and ev[2] in [c for c, _a, _k in steps]:
+                step = [s_ for s_ in steps if s_[0] == ev[2]][0]
+                for who, (K, th) in pairs.items():
+                    mp = {P(params[0]): U, P(params[1]): K, P(params[2]): th, P(params[3]): C(True)}
+                    if tuple(eng.expand(subst(a, eqmap)) for a in ev[3]) == tuple(eng.expand(subst(a, mp)) for a in step[1]):
+                        return "signatures meet the %s root's keys/threshold (a step of verify_signable, called directly)" % who
     if x.origin == "explicit" and all(own_site(eng, st_, "authentication.verify_root") for st_ in x.chain):
         for X, who in ((T, "trusted"), (U, "new")):
             if ("ne", SubC(X, "signed", "type"), C("root")) in facts:
@@ -205,3 +216,65 @@ def _cause(eng, p, x, T, U, tv, uv, pairs):
         if not checked_ok(st, CHECKER, X) and (not about or X in about):
             return "well-formedness of the %s root (implicit error)" % who
     return None
+
+
+def _vs_decomposition(eng):
+    """verify_signable written as a composition of its own private helpers and the serializer -
+    [(callee string, argument terms over its parameters)] in call order - when every completing
+    path of it is exactly that sequence of calls (no loop, store or explicit raise of its own);
+    None otherwise.  A caller that makes the same calls with the same arguments has verified."""
+    cache = eng.__dict__.setdefault("_vs_decomp", {})
+    if "v" in cache:
+        return cache["v"]
+    res = None
+    try:
+        fi = eng.prog.func("authentication.verify_signable")
+        sm = eng.summary(fi, None, frozenset())
+        rets = [p for p in sm.paths if p.kind == "return"]
+        seqs = set()
+        ok = bool(rets) and len(sm.params) >= 4
+        for p in rets:
+            steps = []
+            for ev in p.events:
+                if ev[0] == "call" and isinstance(ev[2], str) and ev[2].startswith("repo:") and ev[5][0] == "ok":
+                    steps.append((ev[2], tuple(eng.expand(a) for a in ev[3]), tuple(ev[4])))
+                elif ev[0] in ("loop", "store", "del", "mutcall", "write", "while", "caught", "print"):
+                    ok = False
+            seqs.add(tuple(steps))
+        for p in sm.paths:
+            if p.kind == "raise" and (p.value.origin == "explicit" and len(p.value.chain) == 1):
+                ok = False  # a rejection of verify_signable's own: a caller of the parts would skip it
+        if ok and len(seqs) == 1:
+            steps = list(next(iter(seqs)))
+            if len(steps) >= 2 and any(c != "repo:common.canonserialize" and c.startswith("repo:authentication._") for c, _a, _k in steps):
+                res = (tuple(sm.params[:4]), steps)
+    except Exception:
+        res = None
+    cache["v"] = res
+    return res
+
+
+def _virtual_vsig(eng, p, U, pairs, eqmap):
+    """verify_signable calls that the path makes *in parts*: for every (keys, threshold) pair, all
+    steps of the composition found on the path with the arguments verify_signable would have
+    given them for (U, keys, threshold, gpg=True)  ->  list of synthetic call events"""
+    from sa.terms import subst
+
+    dec = _vs_decomposition(eng)
+    if dec is None:
+        return []
+    params, steps = dec
+    evs = [ev for ev in flat(p) if ev[0] == "call" and isinstance(ev[2], str) and ev[5][0] == "ok"]
+    out = []
+    for who, (K, th) in pairs.items():
+        mp = {P(params[0]): U, P(params[1]): K, P(params[2]): th, P(params[3]): C(True)}
+        found = []
+        for callee, args, kwargs in steps:
+            want = tuple(eng.expand(subst(a, mp)) for a in args)
+            hit = [ev for ev in evs if ev[2] == callee and tuple(eng.expand(subst(a, eqmap)) for a in ev[3]) == want and not ev[4]]
+            if not hit:
+                break
+            found.append(hit[0])
+        else:
+            out.append(("call", found[-1][1], VSIG, (U, K, th, C(True)), (), ("ok", None)))
+    return out
